@@ -852,7 +852,7 @@ func c14Globals(c *Ctx) {
 									continue
 								}
 								if cal := calleeOf(cc); cal != nil && cal.Signature.Recv() != nil && len(cc.Args) > 0 && cc.Args[0] == x {
-									if !safeRecv(cal.Signature.Recv().Type(), cal.Name()) && !immutableIface(elem) {
+									if !safeRecv(cal.Signature.Recv().Type(), cal.Name()) && !immutableIface(elem) && !onceGuardedMethod(c.P, cal, safeRecv, map[*ssa.Function]bool{}) {
 										fail(g, use, fmt.Sprintf("(type %s) has method %s called on it by %s while executions run: the object is shared by all concurrent executions and is not a sync / sync/atomic type", types.TypeString(elem, nil), cal.Name(), c.fn(fn)))
 									}
 								}
@@ -1852,4 +1852,125 @@ func c14LiveReads(c *Ctx) {
 	if ok {
 		c.Ok("library#live-reads", "", fmt.Sprintf("%d internal getter calls, all on the reviewed list", n))
 	}
+}
+
+// onceGuardedMethod: m is a method of a library type that is safe to call on an object shared by all executions
+// because the only state it writes is written by a function run through a sync.Once of the same object, and whatever
+// such a function writes is read only after that Once's Do returned in the same method (Do orders the write before
+// every later read). Everything else the method does must be reads, calls of equally safe methods of the same object,
+// calls on sync types or on types reviewed as safe for concurrent use, and calls of plain functions outside the library.
+func onceGuardedMethod(p *Program, m *ssa.Function, safeRecv func(types.Type, string) bool, visiting map[*ssa.Function]bool) bool {
+	if m == nil || !p.InScope[m] || m.Signature.Recv() == nil || len(m.Params) == 0 || len(m.Blocks) == 0 {
+		return false
+	}
+	if visiting[m] {
+		return true
+	}
+	visiting[m] = true
+	recvT := namedOfPtr(m.Signature.Recv().Type())
+	if recvT == nil {
+		return false
+	}
+	// fields written by the functions this type hands to a sync.Once
+	onceFns := map[*ssa.Function]bool{}
+	for _, f := range p.Funcs {
+		if f.Signature.Recv() == nil || namedOfPtr(f.Signature.Recv().Type()) == nil || namedOfPtr(f.Signature.Recv().Type()).Obj() != recvT.Obj() {
+			continue
+		}
+		for _, b := range f.Blocks {
+			for _, in := range b.Instrs {
+				if call, ok := in.(*ssa.Call); ok {
+					if cal := call.Call.StaticCallee(); cal != nil && qualName(cal) == "(*sync.Once).Do" && len(call.Call.Args) == 2 {
+						a := call.Call.Args[1]
+						if mc, isMC := a.(*ssa.MakeClosure); isMC {
+							a = mc.Fn
+						}
+						if af, isF := a.(*ssa.Function); isF {
+							onceFns[p.TargetOf(af)] = true
+						}
+					}
+				}
+			}
+		}
+	}
+	onceWritten := map[int]bool{}
+	for f := range onceFns {
+		for _, b := range f.Blocks {
+			for _, in := range b.Instrs {
+				if st, ok := in.(*ssa.Store); ok {
+					if fa, isFA := st.Addr.(*ssa.FieldAddr); isFA {
+						onceWritten[fa.Field] = true
+					}
+				}
+			}
+		}
+	}
+	var doCalls []*ssa.Call
+	for _, b := range m.Blocks {
+		for _, in := range b.Instrs {
+			if call, ok := in.(*ssa.Call); ok {
+				if cal := call.Call.StaticCallee(); cal != nil && qualName(cal) == "(*sync.Once).Do" {
+					doCalls = append(doCalls, call)
+				}
+			}
+		}
+	}
+	after := func(in ssa.Instruction) bool {
+		for _, d := range doCalls {
+			if d.Block() == in.Block() {
+				for _, x := range in.Block().Instrs {
+					if x == d {
+						return true
+					}
+					if x == in {
+						break
+					}
+				}
+			} else if d.Block().Dominates(in.Block()) {
+				return true
+			}
+		}
+		return false
+	}
+	for _, b := range m.Blocks {
+		for _, in := range b.Instrs {
+			switch x := in.(type) {
+			case *ssa.Store:
+				if _, local := x.Addr.(*ssa.Alloc); !local {
+					return false
+				}
+			case *ssa.MapUpdate, *ssa.Send, *ssa.Go:
+				return false
+			case *ssa.UnOp:
+				if fa, isFA := x.X.(*ssa.FieldAddr); isFA && x.Op == token.MUL && onceWritten[fa.Field] && namedOfPtr(fa.X.Type()) != nil && namedOfPtr(fa.X.Type()).Obj() == recvT.Obj() && !after(in) {
+					return false
+				}
+			case ssa.CallInstruction:
+				cc := x.Common()
+				if cc.IsInvoke() {
+					return false
+				}
+				cal := cc.StaticCallee()
+				if cal == nil {
+					if _, isB := cc.Value.(*ssa.Builtin); isB {
+						continue
+					}
+					return false
+				}
+				if cal.Signature.Recv() == nil {
+					if p.InScope[origin(cal)] {
+						return false
+					}
+					continue
+				}
+				if safeRecv(cal.Signature.Recv().Type(), cal.Name()) {
+					continue
+				}
+				if !onceGuardedMethod(p, origin(cal), safeRecv, visiting) {
+					return false
+				}
+			}
+		}
+	}
+	return true
 }
